@@ -399,8 +399,11 @@ func swallowedErrors(p *Program, r *Report, rule string, fn *ssa.Function) {
 				if !ok {
 					continue
 				}
-				// the error edge must not flow back into the success continuation
+				// the error edge must not flow back into the success continuation and end in a success report
 				joins := nonNil != nilS && reaches(nonNil, nilS, nil) && !reaches(nilS, nonNil, nil)
+				if joins {
+					joins = reachesSuccessReturn(fn, nonNil, errv)
+				}
 				callName := "call"
 				if co := calleeOfCommon(c.Common()); co != nil {
 					callName = co.Name()
@@ -766,4 +769,62 @@ func ruleR076(p *Program, r *Report) {
 func init() {
 	mut("C07", "signature compared over the common prefix only", "keystore/v2/keystore/crypto/signature.go", "	return subtle.ConstantTimeCompare(expected, signature) == 1", "	n := len(signature)\n	if n > len(expected) {\n		n = len(expected)\n	}\n	return subtle.ConstantTimeCompare(expected[:n], signature[:n]) == 1", "R07.6", "whole values")
 	mut("C07", "signature verified without the context", "keystore/v2/keystore/crypto/signature.go", "	expected := s.Sign(data, context)\n	// Use constant-time", "	expected := s.Sign(data, nil)\n	// Use constant-time", "R07.6", "Sign(data, context)")
+}
+
+// reachesSuccessReturn: from blk some path that does not pass a terminating call (os.Exit, log.Fatal*, panic)
+// reaches a return that reports success: a nil error constant, or - for a function without an error result -
+// any return. A return whose error result is the error itself (or derives from it) is not a success report.
+func reachesSuccessReturn(fn *ssa.Function, blk *ssa.BasicBlock, errv ssa.Value) bool {
+	dead := map[*ssa.BasicBlock]bool{}
+	for _, b := range fn.Blocks {
+		for _, in := range b.Instrs {
+			switch x := in.(type) {
+			case *ssa.Panic:
+				dead[b] = true
+			case *ssa.Call:
+				if co := calleeOfCommon(x.Common()); co != nil {
+					n := co.Name()
+					if (co.Pkg() != nil && co.Pkg().Path() == "os" && n == "Exit") || strings.HasPrefix(n, "Fatal") || strings.HasPrefix(n, "Panic") {
+						dead[b] = true
+					}
+				}
+			}
+		}
+	}
+	if dead[blk] {
+		return false
+	}
+	errIdx := -1
+	res := fn.Signature.Results()
+	for i := 0; i < res.Len(); i++ {
+		if isErrorType(res.At(i).Type()) {
+			errIdx = i
+		}
+	}
+	for _, ret := range returnsOf(fn) {
+		if isRecoverBlock(ret.Block()) || dead[ret.Block()] {
+			continue
+		}
+		if ret.Block() != blk && !reaches(blk, ret.Block(), dead) {
+			continue
+		}
+		if errIdx < 0 {
+			return true
+		}
+		rv := retValue(ret, errIdx)
+		if isNilConst(rv) {
+			return true
+		}
+		if !backClosure(rv)[errv] {
+			// returns some other error value: only a success report if that value can be nil on this path (a phi with a nil edge)
+			if phi, ok := rv.(*ssa.Phi); ok {
+				for k, e := range phi.Edges {
+					if isNilConst(e) && (phi.Block().Preds[k] == blk || reaches(blk, phi.Block().Preds[k], dead)) {
+						return true
+					}
+				}
+			}
+		}
+	}
+	return false
 }
